@@ -1,3 +1,4 @@
+import Btdht.Proofs.GuardTie.Storage
 import Btdht.Props.C03
 import Btdht.Props.C05
 import Btdht.Props.C06
